@@ -11,6 +11,7 @@ import (
 	"sort"
 	"strings"
 	"sync"
+	"sync/atomic"
 	"time"
 )
 
@@ -205,11 +206,18 @@ func (p *Property) runImpl(ops []string) []string {
 	var wg sync.WaitGroup
 	workers := runtime.NumCPU()
 	idx := make(chan int, 1024)
+	var hangs int32
 	for w := 0; w < workers; w++ {
 		wg.Add(1)
 		go func() {
 			defer wg.Done()
 			for i := range idx {
+				if atomic.LoadInt32(&hangs) >= 12 {
+					// a dozen operations are already stuck (each one keeps a core busy for good):
+					// the rest of the stream is not run, the check reports what it has
+					out[i] = "not-run"
+					continue
+				}
 				op, args := splitOp(ops[i])
 				a := p.Impl[op]
 				if a == nil {
@@ -217,6 +225,9 @@ func (p *Property) runImpl(ops []string) []string {
 					continue
 				}
 				out[i] = callAdapter(a, args, 20*time.Second)
+				if out[i] == "hang" {
+					atomic.AddInt32(&hangs, 1)
+				}
 			}
 		}()
 	}
@@ -228,10 +239,15 @@ func (p *Property) runImpl(ops []string) []string {
 	// an operation that did not finish within the watchdog's time while sixteen others (and
 	// whatever else the machine is doing) were running is run once more on its own with a much
 	// longer limit: only what still does not return counts as a hang
+	// (at most three are re-run: when they hang again the others are taken to hang as well)
+	confirmed := 0
 	for i := range ops {
-		if out[i] == "hang" {
+		if out[i] == "hang" && confirmed < 3 {
 			op, args := splitOp(ops[i])
-			out[i] = callAdapter(p.Impl[op], args, 240*time.Second)
+			out[i] = callAdapter(p.Impl[op], args, 120*time.Second)
+			if out[i] == "hang" {
+				confirmed++
+			}
 		}
 	}
 	return out
@@ -294,6 +310,9 @@ func (p *Property) evalOps(stream string, ops []string, st *streamStats, seen ma
 	}
 	var bad []CaseResult
 	for i, l := range ops {
+		if impl[i] == "not-run" {
+			continue // the stream was cut short after a dozen hangs: nothing to compare
+		}
 		op, args := splitOp(l)
 		if st != nil {
 			st.Cases++
